@@ -171,6 +171,15 @@ example :
      | .ok st => resolvePath st [3]
      | _ => none) = some ⟨.function [] .unit 31, none⟩ := by decide
 
+/-- the defect of the pinned tree (repaired by fix 5daff39): `use 9::1::{self, 2};`
+    came out as the path `9::1::self` — a segment that names nothing — instead
+    of `9::1`; the module was not usable through the declaration that names it -/
+theorem pinned_self_taken_literally :
+    RotoV.Use.flattenPinned (.path 9 (.path 1 (.group (.cons (.name RotoV.Use.selfIdent) (.cons (.name 2) .nil))))) =
+      some [[9, 1, RotoV.Use.selfIdent], [9, 1, 2]] ∧
+    RotoV.Use.flattenSpec (.path 9 (.path 1 (.group (.cons (.name RotoV.Use.selfIdent) (.cons (.name 2) .nil))))) =
+      some [[9, 1], [9, 1, 2]] := by decide
+
 end useWitnesses
 
 end RotoV.C18
